@@ -196,8 +196,11 @@ def _run_session(data, case, faults, src_fault):
         # caller-owned allowed_formats list: whatever its inspectors did must
         # not matter to the stream under test
         pdata, _pi = F.build(pre['content'])
-        psrc = SimSource(pdata, streams.uniform_sizes(len(pdata),
-                                                      pre['chunk']))
+        # (kept short: in a sweep it precedes every one of several hundred
+        # sessions)
+        pdata = pdata[:65536]
+        psrc = SimSource(pdata, streams.uniform_sizes(
+            len(pdata), max(pre['chunk'], 4096)))
         pw = m.InspectWrapper(psrc, expected_format=pre.get('expected'),
                               allowed_formats=allowed_obj)
         try:
